@@ -249,6 +249,16 @@ def enclosing_decl(path, line):
 
 
 def leanchecker(mods):
+    """independent re-check of the compiled modules; `DudModel.Props.Cxx` stands for every Props/Cxx*.lean module"""
+    import glob
+    full = []
+    for m in mods:
+        mm = re.fullmatch(r"DudModel\.Props\.(C\d\d)", m)
+        if mm:
+            full += sorted("DudModel.Props." + os.path.basename(f)[:-5] for f in glob.glob(os.path.join(LEAN, "DudModel", "Props", mm.group(1) + "*.lean")))
+        else:
+            full.append(m)
+    mods = full or mods
     rc, so, se = run(["lake", "env", "leanchecker"] + mods, cwd=LEAN, timeout=3000)
     return rc == 0, (so + se).decode(errors="replace")[-2000:]
 
